@@ -3,9 +3,12 @@
    functions map to OCaml's); nat, positive, N, Z and byte stay the extracted inductives. *)
 From Coq Require Extraction.
 From Coq Require Import ExtrOcamlBasic.
-From KV Require Import Lib.Bytes Model.Date Spec.Calendar.
+From KV Require Import Lib.Bytes Model.Date Spec.Calendar Model.Router Spec.RouterSpec Model.Headers Spec.HeaderStore.
 
 Extraction Language OCaml.
 Extraction "model.ml"
   n2b b2n z2b b2z N.add N.mul N.div_eucl N.eqb N.leb Z.add Z.mul Z.eqb
-  Date.format_http_date Date.cache_run Date.cache_init.
+  Date.format_http_date Date.cache_run Date.cache_init
+  Router.match_route RouterSpec.spec_route RouterSpec.wf_table
+  Headers.hstep Headers.new_headers Headers.get Headers.get_all Headers.token_values Headers.get_count
+  HeaderStore.store_step HeaderStore.spec_cl HeaderStore.eval_chunked HeaderStore.eval_close HeaderStore.lookup_all HeaderStore.lookup_last HeaderStore.tokens.
